@@ -241,7 +241,7 @@ func ruleBaseLevel(p *Prog, r *Report, rule string) {
 	if fn != nil {
 		moreLevels := cmpAtom("level<len(levels)", token.LSS, func(v ssa.Value) bool {
 			ph, ok := v.(*ssa.Phi)
-			return ok && ph.Comment == "level"
+			return ok && phiNamedOr(ph, "level", isCountingPhi)
 		}, func(v ssa.Value) bool {
 			c, ok := v.(*ssa.Call)
 			return ok && isCallTo(c, "builtin:len") && isFieldLoad(c.Call.Args[0], "leveldb.version", "levels")
@@ -301,7 +301,7 @@ func ruleBaseLevel(p *Prog, r *Report, rule string) {
 		// starts two levels below the source
 		okStart := false
 		instrs(fn, func(_ *ssa.BasicBlock, _ int, in ssa.Instruction) {
-			if ph, ok := in.(*ssa.Phi); ok && ph.Comment == "level" {
+			if ph, ok := in.(*ssa.Phi); ok && phiNamedOr(ph, "level", isCountingPhi) {
 				for _, e := range ph.Edges {
 					if mSourceLevelPlus(2, true)(e) {
 						okStart = true
